@@ -176,6 +176,39 @@ def main():
                 fails.append(dict(case=dict(api="compute_marginal[mixed rows]", container=kind, data=dict(y=y, z=z, rows=rows)),
                                   observed=dict(polars_frame=str(ref)[:300], this_container=str(got)[:300]),
                                   clauses=["compute_marginal: a feature matrix given as rows mixing numeric and string columns differs from the same data as a polars frame"]))
+        # partial dependence requested: the feature matrix as ndarray (reference) / list of rows / tuple of row lists / polars frame
+        x2 = [rng.choice([0.0, 1.0, 2.0]) for _ in range(k)]
+
+        def pf(Z):
+            Z = Z.to_numpy() if isinstance(Z, pl.DataFrame) else np.asarray([list(r) for r in Z] if isinstance(Z, (list, tuple)) else Z, dtype=float)
+            return 0.25 * Z[:, 0].astype(float) + 0.5 * Z[:, 1].astype(float) + 1.0
+        Xref = np.asarray([xnum, x2], dtype=float).T.reshape(k, 2)
+        ref = outcome(lambda: compute_marginal(C["y"]["f64"], C["z"]["f64"], X=Xref, feature_name=0, predict_function=pf, n_bins=3, bin_method="uniform"))
+        for kind, Xc in (("rows_list", [[xnum[i], x2[i]] for i in range(k)]), ("tuple_of_row_lists", tuple([xnum[i], x2[i]] for i in range(k))),
+                         ("frame", pl.DataFrame({"f": xnum, "g": x2}))):
+            n += 1
+            stats[f"compute_marginal[partial dependence]:{kind}"] = stats.get(f"compute_marginal[partial dependence]:{kind}", 0) + 1
+            got = outcome(lambda: compute_marginal(C["y"]["f64"], C["z"]["f64"], X=Xc, feature_name=0, predict_function=pf, n_bins=3, bin_method="uniform"))
+            same = (ref[0] == got[0]) and (close(ref[1], got[1]) if ref[0] == "ok" else ref[1] == got[1])
+            if not same and sum(1 for f in fails if f["case"].get("api") == "compute_marginal[partial dependence]" and f["case"].get("container") == kind) < 1:
+                fails.append(dict(case=dict(api="compute_marginal[partial dependence]", container=kind, data=dict(y=y, z=z, X=[[xnum[i], x2[i]] for i in range(k)])),
+                                  observed=dict(float64_ndarray=str(ref)[:300], this_container=str(got)[:300]),
+                                  clauses=["compute_marginal with a predict_function: the table for this container of X differs from the table for a float64 ndarray"]))
+        # aggregated scores inside tables: unchanged when all weights are multiplied by an exact power of two (tiny and huge)
+        for scale, sname in ((2.0 ** -33, "2^-33"), (2.0 ** 40, "2^40")):
+            for api, call in (("decompose", lambda ww: decompose(C["y"]["f64"], C["z"]["f64"], ww, scoring_function=sf3)),
+                              ("compute_bias", lambda ww: compute_bias(C["y"]["f64"], C["z"]["f64"], weights=ww, functional=fn, level=0.3).select(["bias_mean"])),
+                              ("__call__", lambda ww: sf(C["y"]["f64"], C["z"]["f64"], weights=ww))):
+                if api == "decompose" and name3.startswith("Pinball"):
+                    continue
+                n += 1
+                stats[f"weights x {sname}:{api}"] = stats.get(f"weights x {sname}:{api}", 0) + 1
+                a, b = outcome(lambda: call(wa)), outcome(lambda: call(wa * scale))
+                same = (a[0] == b[0]) and (close(a[1], b[1], 1e-9) if a[0] == "ok" else a[1] == b[1])
+                if not same and sum(1 for f in fails if f["case"].get("api") == api + "[weights rescaled]") < 1:
+                    fails.append(dict(case=dict(api=api + "[weights rescaled]", container=sname, data=dict(y=y, z=z, w=w, scoring=name3 if api == "decompose" else name)),
+                                      observed=dict(weights=str(a)[:300], weights_rescaled=str(b)[:300]),
+                                      clauses=[f"{api}: the aggregated scores changed when all weights were multiplied by {sname}"]))
         # bias and marginal tables, with and without a (numeric) feature
         feat = draw(0, 3)
         C["x"] = containers(feat, integral)
